@@ -1,0 +1,28 @@
+//go:build verif
+
+package proxy
+
+// Test-only accessors for the model-based checks in /verif (ProxyHealth.tla, property C14).
+// Add-only; nothing here changes the behaviour of the package.
+
+// VerifHealthHosts returns the host pool of an upstream built by NewStaticUpstreams.
+func VerifHealthHosts(u Upstream) HostPool {
+	if su, ok := u.(*staticUpstream); ok {
+		return su.Hosts
+	}
+	return nil
+}
+
+// VerifHealthStopClosed reports whether Stop has already closed the upstream's stop channel.
+func VerifHealthStopClosed(u Upstream) bool {
+	su, ok := u.(*staticUpstream)
+	if !ok {
+		return false
+	}
+	select {
+	case <-su.stop:
+		return true
+	default:
+		return false
+	}
+}
